@@ -406,6 +406,15 @@ def rule_goto_cache(ctx, rep, config="c-lib"):
                     continue
                 rec[lf.split(".")[-1]] = s_
     missing = [k for k in ("result", "place", "curr") if k not in rec]
+    if "place" in rec:
+        lp_ = loaded_from(f, rec["place"].ops[0])
+        if not (lp_ is not None and lp_.root == ("g", "pl_curr") and not lp_.steps):
+            rep.violation("R27-goto", "build_pl/place-is-parser-list-position", "the cache entry records as the place of the built set a value that is not the parser list "
+                          "position pl_curr (the validity test compares pl[pl_curr + 1 - dist] with pl[place + 1 - dist]): after a recovery that ignored other than "
+                          "exactly one token the token number and the list position differ, and a cached set with the wrong origins is accepted",
+                          where=rec["place"].where(), witness=[rec["place"].where()])
+        else:
+            rep.ok("R27-goto", "build_pl/place-is-parser-list-position", sample={"store": rec["place"].where()})
     if missing:
         rep.violation("R27-goto", "build_pl/built-set-recorded", "after build_new_set the cache entry does not receive %s: the transition is rebuilt the next time (or the "
                       "cached set is validated against the wrong position)" % ", ".join(missing), where=b.where(), witness=[b.where()])
